@@ -254,6 +254,28 @@ theorem url (impl : Impl) (ra : RA) (m : Option Str) (pd : Option UDict) (data :
   by_cases h1 : endsWithSlash impl.address = true <;>
     by_cases h2 : startsWithSlash (withQuery ra.path pd) = true <;> simp_all
 
+/-- **Exactly one `/` between address and path** wherever both are in normal form: an address
+without a trailing `/` followed by an absolute path is their concatenation; followed by a relative
+path (also the empty one, also one that is only a query) it gets one `/`; an address with a trailing
+`/` followed by a relative path is their concatenation. (Address with a trailing `/` *and* an
+absolute path: plain concatenation — the one case where two slashes meet.) -/
+theorem url_one_slash (impl : Impl) (ra : RA) (m : Option Str) (pd : Option UDict) (data : Body)
+    (resp : Except Err J) :
+    (endsWithSlash impl.address = false → ∀ r, withQuery ra.path pd = '/' :: r →
+        (assemble impl ra m pd data resp).url = impl.address ++ '/' :: r) ∧
+    (endsWithSlash impl.address = false → startsWithSlash (withQuery ra.path pd) = false →
+        (assemble impl ra m pd data resp).url = impl.address ++ '/' :: withQuery ra.path pd) ∧
+    (endsWithSlash impl.address = true → startsWithSlash (withQuery ra.path pd) = false →
+        (assemble impl ra m pd data resp).url = impl.address ++ withQuery ra.path pd) ∧
+    (endsWithSlash impl.address = true → startsWithSlash (withQuery ra.path pd) = true →
+        (assemble impl ra m pd data resp).url = impl.address ++ withQuery ra.path pd) := by
+  have h := (url impl ra m pd data resp).1
+  refine ⟨fun h1 r hr => ?_, fun h1 h2 => ?_, fun h1 h2 => ?_, fun h1 h2 => ?_⟩
+  · rw [h, hr]; simp [h1, startsWithSlash]
+  · rw [h]; simp [h1, h2]
+  · rw [h]; simp [h1]
+  · rw [h]; simp [h1]
+
 /-- **Params are an association list, not a map.** The `params=` object (a dict, or a list / tuple
 of pairs in which a key may repeat) is read as the list of its `(key, str(value))` pairs: every pair
 is kept, in order, and each contributes `quote_plus(key)=quote_plus(str(value))` to the query, joined
